@@ -64,6 +64,10 @@ let run path =
               match apply !frame (int_of_string pos) (int_of_string ("0x" ^ pat)) with
               | None -> print_endline "SKIP"
               | Some bad -> print_endline (if check bad then "ACCEPT" else "REJECT"))
+          | [ "X"; h ] ->
+              let mask = bytes_of_hex_arr h in
+              let bad = Array.mapi (fun i x -> x lxor mask.(i)) !frame in
+              print_endline (if check bad then "ACCEPT" else "REJECT")
           | [ "BA"; pos; len ] ->
               let pos = int_of_string pos and len = int_of_string len in
               let n = ref 0 and r = ref 0 and a = ref 0 and first = ref (-1) in
